@@ -43,8 +43,8 @@ CALCSEQ = {
         R("member:txin.", r"(?<![\w.>])txin\.(?=\w)", "txin->", False),
         R("domain:prevHeights[k] read (precondition applied at the point of use)", r"int nCoinHeight = prevHeights\[txinIndex\];", "int nCoinHeight = VERIF_READ_IN_DOMAIN(prevHeights[txinIndex], 0, PREVHEIGHT_MAX);", False),
         R("ghost:Assert(block.GetAncestor(h))->GetMedianTimePast()", r"Assert\(block->GetAncestor\(std::max\(nCoinHeight - 1, 0\)\)\)->GetMedianTimePast\(\)", "CBlockIndex_AncestorMTP(block, verif_max_int(nCoinHeight - 1, 0))", False),
-        R("std::max<int64>", r"nMinTime = std::max\(", "nMinTime = verif_max_i64(", False),
-        R("std::max<int>", r"nMinHeight = std::max\(", "nMinHeight = verif_max_int(", False),
+        R("std::max<int64> (witness-recording)", r"nMinTime = std::max\(", "nMinTime = VERIF_MAX_T(", False),
+        R("std::max<int> (witness-recording)", r"nMinHeight = std::max\(", "nMinHeight = VERIF_MAX_H(", False),
         R("std::make_pair -> compound literal", r"std::make_pair\(([^;]*)\);", r"(LockPair){\1};", False),
         SEQCONST],
     "loops": [{"match": r"\btxinIndex\b", "contract": "LOOP_CALCSEQ", "prologue": "GHOST_CALCSEQ_STEP(txinIndex)", "required": False}],
@@ -76,7 +76,7 @@ CHECKTXINPUTS = {
         R("assert-in-loop", r"assert\(!coin\.IsSpent\(\)\);", "VERIF_ASSERT_AT(i, !Coin_IsSpent(coin));", False),
         R("call:coin.IsCoinBase()", r"coin\.IsCoinBase\(\)", "coin->fCoinBase", False),
         R("member:coin.", r"(?<![\w.>])coin\.(?=\w)", "coin->", False),
-        R("call:tx.GetValueOut()", r"tx->GetValueOut\(\)", "CTransaction_GetValueOut(tx)", False),
+        R("ghost:tx.GetValueOut() (own contract: sum of outputs)", r"tx->GetValueOut\(\)", "g_value_out", False),
         R("out-param:txfee =", r"(?<![\w.>*])txfee = ", "*txfee = ", False),
     ],
     "loops": [{"match": r"\bunsigned int i = 0; i < tx->vin_size", "contract": "LOOP_TXIN", "prologue": "GHOST_TXIN_STEP(i)", "required": False}],
@@ -107,7 +107,7 @@ FRAG_FEES = {
     "begin": r"nFees \+= txfee;", "end": r"prevheights\.resize\(tx\.vin\.size\(\)\);", "include_end": False,
     "prologue": "int ConnectBlock_fee_accumulation(CAmount* nFees_p, CAmount txfee, BlockValidationState* state_p)\n{\n    CAmount nFees = *nFees_p; int broke = 1;\n    do {",
     "epilogue": "    broke = 0;\n    } while (0);\n    *nFees_p = nFees;\n    return broke;\n}",
-    "rules": [R("ref:state", r"(?<![\w.>])state\.", "state_p->", False), invalid_rule(r"state_p->", "BlockValidationResult", "BlockState_Invalid")],
+    "rules": [R("ref:state", r"(?<![\w.>])state\.", "state_p->", False), invalid_rule(r"state_p->", "BlockValidationResult", "BlockState_Invalid", state_arg="state_p")],
     "rules_post": [],
 }
 # ConnectBlock: the BIP68 gate of one transaction
@@ -131,7 +131,7 @@ FRAG_CBLIMIT = {
     "prologue": "void ConnectBlock_coinbase_limit(CAmount nFees, const CBlockIndex* pindex, const Consensus_Params* consensus_p, const CTransaction* coinbase_tx, BlockValidationState* state_p)\n{",
     "epilogue": "}",
     "rules": [R("ghost:params.GetConsensus()", r"params\.GetConsensus\(\)", "consensus_p", False),
-              R("call:block.vtx[0]->GetValueOut()", r"block\.vtx\[0\]->GetValueOut\(\)", "CTransaction_GetValueOut(coinbase_tx)", False),
+              R("ghost:block.vtx[0]->GetValueOut() (own contract: sum of outputs)", r"block\.vtx\[0\]->GetValueOut\(\)", "g_cb_value_out", False),
               R("call:state.IsValid()", r"state\.IsValid\(\)", "BlockState_IsValid(state_p)", False),
               R("state.Invalid(bad-cb-amount)", r'state\.Invalid\(BlockValidationResult::BLOCK_CONSENSUS, "bad-cb-amount",\s*strprintf\([^;]*\)\);', lambda m: 'BlockState_Invalid(state_p, BLOCK_CONSENSUS, SPEC_R_bad_cb_amount /* "bad-cb-amount" */);', False)],
 }
@@ -159,7 +159,22 @@ FRAG_CUTOFF = {
               R("ghost:pindexPrev->GetMedianTimePast()", r"pindexPrev->GetMedianTimePast\(\)", "CBlockIndex_GetMedianTimePast(pindexPrev)", False),
               R("member:block.GetBlockTime()", r"block\.GetBlockTime\(\)", "((int64_t)block_p->nTime)", False),
               R("rangefor:block.vtx", r"for \(const auto& tx : block\.vtx\)", "for (size_t i_tx = 0; i_tx < block_p->vtx_size; i_tx++)", False),
-              R("deref:*tx", r"IsFinalTx\(\*tx,", "IsFinalTx(block_p->vtx[i_tx],", False),
+              R("uf:IsFinalTx(*tx, h, t)", r"IsFinalTx\(\*tx,", "IsFinalTx_call(block_p->vtx[i_tx],", False),
               R("state.Invalid(nonfinal)", r'state\.Invalid\(BlockValidationResult::BLOCK_CONSENSUS, "bad-txns-nonfinal", "non-final transaction"\)', 'BlockState_Invalid(state_p, BLOCK_CONSENSUS, SPEC_R_bad_txns_nonfinal /* "bad-txns-nonfinal" */)', False)],
     "loops": [{"match": r"\bi_tx\b", "contract": "LOOP_BLOCKTXS", "prologue": "GHOST_BLOCKTX_STEP(i_tx)", "required": False}],
+}
+
+# CCoinsViewCache::AddCoin: the head of the function up to the map access
+FRAG_ADDCOIN = {
+    "name": "AddCoin_head", "kind": "frag", "file": "src/coins.cpp", "within": r"void CCoinsViewCache::AddCoin\(const COutPoint &outpoint, Coin&& coin, bool possible_overwrite\)",
+    "begin": r"assert\(!coin\.IsSpent\(\)\);", "end": r"CCoinsMap::iterator it;", "include_end": False,
+    "prologue": "int AddCoin_head(bool coin_spent, bool script_unspendable)\n{", "epilogue": "    AddCoin_rest();\n    return 1;\n}",
+    "rules": [R("assert", r"\bassert\(", "VERIF_ASSERT(", False), R("ghost:coin.IsSpent()", r"coin\.IsSpent\(\)", "coin_spent", False),
+              R("ghost:coin.out.scriptPubKey.IsUnspendable()", r"coin\.out\.scriptPubKey\.IsUnspendable\(\)", "script_unspendable", False),
+              R("void return -> 0", r"\breturn;", "return 0;", False)],
+}
+ISUNSPENDABLE = {
+    "name": "IsUnspendable", "cname": "CScript_IsUnspendable", "kind": "func", "file": "src/script/script.h", "within_class": r"class CScript\b", "head": r"bool IsUnspendable\(\)",
+    "rules": [R("method-head:CScript::IsUnspendable", r"bool IsUnspendable\(\) const", "bool CScript_IsUnspendable(const ByteVec* self)"),
+              R("member:size()", r"(?<![\w.>])size\(\)", "self->size", False), R("member:*begin()", r"\*begin\(\)", "self->data[0]", False)],
 }
